@@ -1625,8 +1625,14 @@ def idx_list_to_index_array(idx_list):
     """
     if len(idx_list) == 0:
         return None
-    elif len(idx_list) == 1:
+    elif len(idx_list) == 1 and idx_list[0]._src_shape is None:
         return idx_list[0].as_array()
+    elif len(idx_list) == 1:
+        # index into an arange of the source so that negative indices and indices into a
+        # non-flat multi-dimensional source resolve to flat source positions
+        idx = idx_list[0]
+        arr = np.arange(shape_to_len(idx._src_shape)).reshape(idx._src_shape)
+        return np.atleast_1d(idx.indexed_val(arr)).ravel()
     else:
         idx = idx_list[0]
         arr = np.arange(shape_to_len(idx._src_shape)).reshape(idx._src_shape)
